@@ -168,6 +168,42 @@ def _const_int(e):
 
 
 # ------------------------------------------------------------------ C12 / C03 / C15: hash descriptor
+def _hash_descriptor_abstract(ctx: Ctx, m, fn, p):
+    """deterministic_proba interpreted over the hash-pipeline domain (opaque key -> bytes(codec) -> hash(algo) -> digest slice ->
+    integer -> exact rational scale).  None when the interpreter cannot follow the code (the syntactic matcher is used then)."""
+    from pyab_static import absint as A
+    key = A.Sym("str", "KEY")
+    it = A.Interp(ctx.src)
+    it.hash_domain = True
+    try:
+        v = it.call(A.FuncVal(m, fn), [key], {})
+    except (A.Unsupported, A.NeedChoice, A.RaiseSig):
+        return None
+    if not isinstance(v, A.ABits):
+        return None
+    dg = v.digest
+    d = {"fn": fn, "mod": m, "expr": f"abstract: {v}", "param": p, "how": "abstract interpretation"}
+    if len(dg.data) != 1 or not isinstance(dg.data[0], A.ABytes):
+        d["problem"] = f"the hashed bytes are not <key>.encode(...): {dg.data!r}"[:160]
+        d["algo"] = dg.algo
+        return d
+    by = dg.data[0]
+    unit = 4 if dg.kind == "hex" else 8
+    lo, hi = dg.lo, dg.hi
+    d.update(algo=dg.algo, digest_kind="hexdigest" if dg.kind == "hex" else "digest", byteorder=v.byteorder,
+             slice=(lo, hi, str(dg.step) if dg.step is not None else None),
+             bits=None if (lo is None or hi is None or lo < 0 or hi < 0) else (hi - lo) * unit,
+             first=lo == 0 and hi is not None and hi > 0 and dg.step is None,
+             encoding=by.codec, errors=by.errors, input="the parameter" if by.src is key else repr(by.src), input_is_param=by.src is key)
+    sc = v.scale
+    if sc.numerator != 1:
+        d["divisor"] = None
+        d["problem"] = f"the hash integer is scaled by {sc}, not divided by a constant"
+        return d
+    d["divisor"] = sc.denominator
+    return d
+
+
 def hash_descriptor(ctx: Ctx):
     """Abstractly evaluate deterministic_proba into {algo, encoding, errors, bits, divisor, input}."""
     m = ctx.mod(BIN)
@@ -177,6 +213,11 @@ def hash_descriptor(ctx: Ctx):
     if len(params) != 1:
         raise AnalysisError("deterministic_proba no longer takes exactly one parameter")
     p = params[0]
+    cache = ctx.__dict__.setdefault("_hash_desc", {})
+    if "abs" not in cache:
+        cache["abs"] = _hash_descriptor_abstract(ctx, m, fn, p)
+    if cache["abs"] is not None:
+        return cache["abs"]
     env, multi = _single_assign_env(fn)
     if p in env or p in multi:
         return {"problem": f"the parameter {p} is reassigned before hashing", "fn": fn, "mod": m}
